@@ -168,7 +168,7 @@ func isFieldOptional(f reflect.StructField) (bool, error) {
 	optional, err := strconv.ParseBool(tag)
 	if err != nil {
 		err = newErrInvalidInput(
-			fmt.Sprintf("invalid value %q for %q tag on field %v", tag, _optionalTag, f.Name), err)
+			fmt.Sprintf("invalid value %q for %q tag on field %v: %v", tag, _optionalTag, f.Name, err), nil)
 	}
 
 	return optional, err
